@@ -19,14 +19,21 @@ Definition branch_valid (b : block) : bool :=
      end) (h_blocks h) (h_branch_valid h).
 
 (* codes: 1 tip is not of maximal cumulative difficulty among stored blocks, 2 reported tip is not a stored block,
-   3 branch-valid block refused although its parent is stored *)
+   3 branch-valid block refused although its parent is stored,
+   4 = 3 where the block does not extend the current tip and the refusal is the stake-signature check of checkBlock,
+       which judges a side-branch block against the main chain's stake state (open finding R14) *)
 Definition c04_pf (n0 n1 : node) (b : block) (now : N) (o : obs) : N :=
-  first_fail [
+  let c := first_fail [
     (2, match get_block n1 (ob_top o) with Some t => b_cd t =? ob_top_cd o | None => false end);
     (1, max_cd n1 <=? ob_top_cd o);
     (3, negb (branch_valid b && negb (ob_acc o) &&
-              match get_block n0 (prev_hash b) with Some _ => true | None => false end))].
+              match get_block n0 (prev_hash b) with Some _ => true | None => false end))] in
+  if (c =? 3) && negb (prev_hash b =? top n0) &&
+     match deliver cfg (h_genesis_addr h) (h_team_key h) n0 b now with
+     | (_, Rejected rc, _) => (rc =? 717) || (rc =? 718) || (rc =? 719)
+     | _ => false end
+  then 4 else c.
 End C04.
 
 Definition c04_bad_corr (cfg : config) (hs : list hist) := hist_corr_detail cfg hs.
-Definition c04_bad_prop (cfg : config) (hs : list hist) := bad_codes (fun h => hist_prop cfg h (c04_pf h)) hs 0.
+Definition c04_bad_prop (cfg : config) (hs : list hist) := bad_codes (fun h => hist_prop cfg h (c04_pf cfg h)) hs 0.
